@@ -18,7 +18,7 @@ from pathlib import Path
 
 VERIF = Path(__file__).resolve().parent.parent
 SEEDED = VERIF / "seeded"
-ENV = dict(os.environ, PYTHONPATH="/repo", PYTHONHASHSEED="0")
+ENV = dict(os.environ, PYTHONPATH="/repo", PYTHONHASHSEED="0", OMP_NUM_THREADS="1", OPENBLAS_NUM_THREADS="1")
 
 
 def sh(cmd, **kw):
@@ -64,7 +64,7 @@ def do_run(sid, tier="quick"):
         r1 = sh(["/venv/bin/python", str(d / "demonstration.py")], env=ENV, timeout=300)
         res["demo_patched_exit"] = r1.returncode
         res["demo_patched_output"] = (r1.stdout + r1.stderr).strip()[-300:]
-        b = sh(["/venv/bin/python", str(VERIF / "harness" / "baseline.py")])
+        b = sh(["/venv/bin/python", str(VERIF / "harness" / "baseline.py")], env=ENV)
         res["pinned_tests_pass"] = b.returncode == 0
         ck = sh(["/venv/bin/python", str(VERIF / "harness" / "check.py"), cid, "--tier", tier], timeout=7200)
         lines = [ln for ln in ck.stdout.splitlines() if ln.startswith("VIOLATION")]
